@@ -76,7 +76,7 @@ Print Assumptions C24_chunks_connected_sound.
 (* ChunkLinearization's feerates are those of ChunkLinearizationInfo *)
 Theorem C24_chunking_info_feerates : forall (fr : list (Z * Z)) lin,
   map snd (chunking_info (fun i => nth i fr (0, 0)) lin) = chunking (map (fun i => nth i fr (0, 0)) lin).
-Proof. intros. apply chunking_info_snd. Qed.
+Proof. exact chunking_info_feerates. Qed.
 Print Assumptions C24_chunking_info_feerates.
 
 (* ---- PostLinearize (model LinPost.post_linearize, compared output-for-output with the real one) ------ *)
@@ -86,7 +86,7 @@ Print Assumptions C24_chunking_info_feerates.
 Theorem C24_post_linearize_perm_topo : forall n deps fr lin,
   Permutation (post_linearize n deps fr lin) lin /\
   (topo_valid n deps lin -> topo_valid n deps (post_linearize n deps fr lin)).
-Proof. intros. split; [apply post_linearize_perm | apply post_linearize_topo]. Qed.
+Proof. exact post_linearize_perm_topo. Qed.
 Print Assumptions C24_post_linearize_perm_topo.
 
 (* non-vacuity: a 4-transaction diamond (0 -> 1, 0 -> 2, 1 -> 3, 2 -> 3) *)
